@@ -953,7 +953,7 @@ func runC12(r *rt.Runner) {
 			c12Batch(c, batch, "systematic")
 		})
 	}
-	for b := 0; b < r.Scale(60, 2500); b++ {
+	for b := 0; b < r.Scale(60, 25000); b++ {
 		r.Do(fmt.Sprintf("random/%d", b), func(c *rt.C) {
 			c12Batch(c, c12Declarations(c.Rand(), false, 20), "random")
 		})
